@@ -2496,8 +2496,26 @@ func (c *Conn) negotiateVersionClient(ctx context.Context) ([]*dtlsflight.Packet
 		return nil, err
 	}
 
+	// The handshake state machine, which owns the retransmission timer, only
+	// starts once the server has answered: until then the ClientHello is
+	// repeated here, on the same schedule.
+	interval := c.handshakeConfig.InitialRetransmitInterval
 	for {
-		if err := c.readAndBufferNoFSM(ctx); err != nil {
+		readCtx, cancelRead := context.WithTimeout(ctx, interval)
+		err := c.readAndBufferNoFSM(readCtx)
+		timedOut := readCtx.Err() != nil && ctx.Err() == nil
+		cancelRead()
+		if err != nil && timedOut {
+			if err = c.writePackets(ctx, pkts); err != nil {
+				return nil, err
+			}
+			if !c.handshakeConfig.DisableRetransmitBackoff && interval < 60*time.Second {
+				interval = min(2*interval, 60*time.Second)
+			}
+
+			continue
+		}
+		if err != nil {
 			if c.classifyReadLoopError(err) == readLoopContinue {
 				continue
 			}
